@@ -138,6 +138,17 @@ func (x *Exec) strConst(st *State, s string) string {
 	x.decls.Const(n, "Str")
 	x.strConsts[s] = n
 	x.ensurePre(eq(x.strLen(n), x.idxLit(int64(len(s)))))
+	if len(s) <= 32 {
+		// the bytes of a short literal are known ([]byte("hs") etc.)
+		x.decls.Fun("gstr.bytes", []string{"Str"}, "(Array "+x.sorts.Idx()+" "+x.byteSort()+")")
+		for i := 0; i < len(s); i++ {
+			b := intLit(int64(s[i]))
+			if x.mode == ModeBV {
+				b = fmt.Sprintf("(_ bv%d 8)", s[i])
+			}
+			x.ensurePre(eq(sel(app("gstr.bytes", n), x.idxLit(int64(i))), b))
+		}
+	}
 	return n
 }
 
